@@ -489,3 +489,85 @@ def dropped_paths(fn, origin, max_states=40000, log=None):
             continue
         # unreachable / diverging terminators end the path without a return
     return found
+
+
+def double_handoffs(fn, origin, max_states=60000):
+    """{class: [blocks]}: paths on which the value is handed on twice (two constructors / containers / parser
+    routines / the caller receive the same node: its text would occur twice in the tree)."""
+    from .lib import Call
+    c = origin.call
+    S0 = State()
+    if c is None:
+        S0.taint[origin.param] = origin.comp
+        stack = [(0, S0, (0,), None)]
+    else:
+        S0.taint[place_local(c.dest)] = origin.comp
+        stack = [(c.target, S0, (c.bb, c.target), None)]
+    seen = set()
+    found = {}
+    n = 0
+    while stack:
+        bb, S, path, first = stack.pop()
+        key = (bb, first, S.freeze())
+        if key in seen:
+            continue
+        seen.add(key)
+        n += 1
+        if n > max_states:
+            raise RuntimeError("state limit in %s" % fn.path)
+        if c is not None and bb == c.bb and len(path) > 2:
+            continue        # back at the origin call: a fresh value is produced
+        S = S.copy()
+        blk = fn.blocks[bb]
+        for st in blk["s"]:
+            if _stmt(fn, st, S) == SINK:
+                if first is not None:
+                    found.setdefault("stored after %s" % first, list(path))
+                first = first or "store"
+        if not S.taint and not S.refs:
+            continue
+        t = blk["t"]
+        k = t[0]
+        if k == "ret":
+            if 0 in S.taint and first is not None:
+                found.setdefault("returned after %s" % first, list(path))
+            continue
+        if k == "call":
+            cc = Call(fn, bb, t)
+            S2 = S.copy()
+            r = _call(fn, cc, S2, None)
+            if r == SINK:
+                nm = last_seg(cc.path)
+                n_args = sum(1 for a in cc.args if op_place(a) is not None and S.holds(op_place(a)))
+                if n_args > 1:
+                    found.setdefault("%s receives it %d times" % (nm, n_args), list(path))
+                    continue
+                if first is not None:
+                    found.setdefault("%s after %s" % (nm, first), list(path))
+                    continue
+                # handed on once; the copy the function still holds may be handed on again
+                nf = nm
+                S2 = S.copy()
+                dl = place_local(cc.dest)
+                if not place_proj(cc.dest):
+                    S2.kill(dl)
+                if cc.target is not None:
+                    stack.append((cc.target, S2, path + (cc.target,), nf))
+                continue
+            if cc.target is not None:
+                stack.append((cc.target, S2, path + (cc.target,), first))
+            continue
+        if k == "switch":
+            for s_, ns in _switch_succ(fn, t, S):
+                if ns is not None:
+                    stack.append((s_, ns.copy(), path + (s_,), first))
+            continue
+        if k == "goto":
+            stack.append((t[1], S, path + (t[1],), first))
+            continue
+        if k in ("drop", "assert"):
+            tgt = t[2] if k == "drop" else t[5]
+            if isinstance(tgt, int):
+                stack.append((tgt, S, path + (tgt,), first))
+            continue
+    return found
